@@ -368,6 +368,7 @@ impl<K, V, S> HashMap<K, V, S> {
             Ordering::Relaxed,
             0,
             0,
+            line!(),
         );
         let n = self.count.load(Ordering::Relaxed);
         if n < 0 {
@@ -461,6 +462,7 @@ impl<K, V, S> HashMap<K, V, S> {
                 Ordering::SeqCst,
                 0,
                 0,
+                line!(),
             );
             let mut sc = self.size_ctl.load(Ordering::SeqCst);
             if sc < 0 {
@@ -479,6 +481,7 @@ impl<K, V, S> HashMap<K, V, S> {
                 Ordering::SeqCst,
                 sc,
                 -1,
+                line!(),
             );
             if self
                 .size_ctl
@@ -515,6 +518,7 @@ impl<K, V, S> HashMap<K, V, S> {
                     Ordering::SeqCst,
                     sc,
                     0,
+                    line!(),
                 );
                 self.size_ctl.store(sc, Ordering::SeqCst);
                 break table;
@@ -607,6 +611,7 @@ where
                 Ordering::SeqCst,
                 0,
                 0,
+                line!(),
             );
             let size_ctl = self.size_ctl.load(Ordering::SeqCst);
             if size_ctl < 0 {
@@ -641,6 +646,7 @@ where
                     Ordering::SeqCst,
                     size_ctl,
                     -1,
+                    line!(),
                 );
                 if self
                     .size_ctl
@@ -667,6 +673,7 @@ where
                         Ordering::SeqCst,
                         size_ctl,
                         0,
+                        line!(),
                     );
                     self.size_ctl.store(size_ctl, Ordering::SeqCst);
                     continue;
@@ -709,6 +716,7 @@ where
                     Ordering::SeqCst,
                     new_load_to_resize_at,
                     0,
+                    line!(),
                 );
                 self.size_ctl.store(new_load_to_resize_at, Ordering::SeqCst);
             } else if requested_capacity <= size_ctl || current_capactity >= MAXIMUM_CAPACITY {
@@ -735,6 +743,7 @@ where
                     Ordering::SeqCst,
                     size_ctl,
                     rs + 2,
+                    line!(),
                 );
                 if self
                     .size_ctl
@@ -788,6 +797,7 @@ where
                 Ordering::SeqCst,
                 n as isize,
                 0,
+                line!(),
             );
             self.transfer_index.store(n as isize, Ordering::SeqCst);
             next_table_ptr = self.next_table.load(Ordering::Relaxed, guard);
@@ -817,6 +827,7 @@ where
                     Ordering::SeqCst,
                     0,
                     0,
+                    line!(),
                 );
                 let next_index = self.transfer_index.load(Ordering::SeqCst);
                 if next_index <= 0 {
@@ -838,6 +849,7 @@ where
                     Ordering::SeqCst,
                     next_index,
                     next_bound,
+                    line!(),
                 );
                 if self
                     .transfer_index
@@ -899,6 +911,7 @@ where
                         Ordering::SeqCst,
                         ((n as isize) << 1) - ((n as isize) >> 1),
                         0,
+                        line!(),
                     );
                     self.size_ctl
                         .store(((n as isize) << 1) - ((n as isize) >> 1), Ordering::SeqCst);
@@ -913,6 +926,7 @@ where
                     Ordering::SeqCst,
                     0,
                     0,
+                    line!(),
                 );
                 let sc = self.size_ctl.load(Ordering::SeqCst);
                 #[cfg(flurry_verif)]
@@ -923,6 +937,7 @@ where
                     Ordering::SeqCst,
                     sc,
                     sc - 1,
+                    line!(),
                 );
                 if self
                     .size_ctl
@@ -1324,6 +1339,7 @@ where
                 Ordering::SeqCst,
                 0,
                 0,
+                line!(),
             );
             let sc = self.size_ctl.load(Ordering::SeqCst);
             #[cfg(flurry_verif)]
@@ -1334,6 +1350,7 @@ where
                 Ordering::SeqCst,
                 0,
                 0,
+                line!(),
             );
             if sc >= 0
                 // the resize in progress must be the one of _this_ table (as in the Java code):
@@ -1354,6 +1371,7 @@ where
                 Ordering::SeqCst,
                 sc,
                 sc + 1,
+                line!(),
             );
             if self
                 .size_ctl
@@ -1386,6 +1404,7 @@ where
             Ordering::SeqCst,
             n,
             0,
+            line!(),
         );
         let mut count = match n.cmp(&0) {
             cmp::Ordering::Greater => self.count.fetch_add(n, Ordering::SeqCst) + n,
@@ -1411,6 +1430,7 @@ where
                 Ordering::SeqCst,
                 0,
                 0,
+                line!(),
             );
             let sc = self.size_ctl.load(Ordering::SeqCst);
             if count < sc {
@@ -1445,6 +1465,7 @@ where
                     Ordering::SeqCst,
                     sc,
                     rs + 2,
+                    line!(),
                 );
             }
             if sc < 0 {
@@ -1464,6 +1485,7 @@ where
                     Ordering::SeqCst,
                     0,
                     0,
+                    line!(),
                 );
                 if self.transfer_index.load(Ordering::SeqCst) <= 0 {
                     break;
@@ -1478,6 +1500,7 @@ where
                     Ordering::SeqCst,
                     sc,
                     sc + 1,
+                    line!(),
                 );
                 if self
                     .size_ctl
@@ -1520,6 +1543,7 @@ where
                 Ordering::SeqCst,
                 0,
                 0,
+                line!(),
             );
             count = self.count.load(Ordering::SeqCst);
         }
